@@ -34,7 +34,7 @@ func C14Text(r *rand.Rand) string {
 // ---- properties --------------------------------------------------------------------------
 
 var c14PropKeys = []string{"a", "b", "c", "key", "name", "x1", "my-key", "my_key", "with space", "a=b", "a:b", "k:", "=", "#hash", "!bang", "mid#dle", "mid!dle",
-	"tab\tkey", "é", "日本", "😀k", "back\\slash", "UPPER", "a b c", " lead", "trail ", "q\"k", "it's", "[0]", "a[1]", "%", "$x", "@", "~", "1a", "a1", "-", "_", "0x1f", "1e3x", "x y=z:w"}
+	"tab\tkey", "é", "日本", "😀k", "back\\slash", "UPPER", "a b c", " lead", "trail ", "q\"k", "it's", "[0]", "a[1]", "%", "$x", "@", "~", "1a", "a1", "-", "_", "0x1f", "1e3x", "x y=z:w", "a*", "*", "a?", "?", "*a", "n*me"}
 
 // C14PropKey returns a property key inside the domain: non-empty, no '.', not an integer
 // spelling (those denote nesting / array positions).
